@@ -224,3 +224,13 @@ Definition multinomial_exp (p q : list Q) : nat :=
 Definition sample_masked (l : list Q) (legal : list bool) (weights q : list Q) : nat :=
   multinomial_exp (map (fun '(w, i) => if existsb (Nat.eqb i) (masked_support l legal) then w else 0)
                        (combine weights (seq 0 (length weights)))) q.
+
+(* ------------------------------------------------------------------ numeric masks *)
+(* the learners invert a numeric mask m as 1 - m (torch: (1 - m).bool(), numpy: np.ma mask = 1 - m): an entry is
+   treated as ILLEGAL iff 1 - m <> 0.  legal_of_num is what the code computes, for any rational mask value *)
+Definition legal_of_num (m : Q) : bool := Qeq_bool (1 - m) 0.
+Definition legal_of_nums (ms : list Q) : list bool := map legal_of_num ms.
+
+(* all agents of a multi-agent learner at once: (box, network output, noise) per agent *)
+Definition maddpg_cont_all (training : bool) (a : act) (agents : list (list bounds * list Q * list Q)) : list (list Q) :=
+  map (fun '(box, y, n) => maddpg_cont_row training a box y n) agents.
